@@ -45,6 +45,7 @@ def run_program(chk, da, prog, sources, budget=20):
     nodes = progs.all_nodes(prog)
     leaves = [repr(q) for q in progs.all_leaf_uses(prog)]
     feats = {"swv_reduction": any(q[0] == "swv" and q[4] is not None for q in nodes), "root_op": prog[0],
+             "overlap_below": any(q[0] == "map_overlap" or (q[0] == "call" and "overlap" in q[1]) for q in nodes),
              "shared_leaf": len(leaves) != len(set(leaves)) or any(q[0] in ("diff", "where", "roll", "map_overlap", "cum", "setitem", "where_out") for q in nodes)}
     old = signal.signal(signal.SIGALRM, _alarm)
     signal.alarm(budget)
